@@ -349,7 +349,14 @@ pub fn find_fn(items: &[syn::Item], name: &str) -> Result<FoundFn, String> {
                 if let Some((_, path, _)) = &im.trait_ {
                     let mut st = (*im.self_ty).clone();
                     StripLifetimes.visit_type_mut(&mut st);
-                    if path.segments.last().map(|s| s.ident.to_string()).as_deref() == Some(trn) && norm(st.to_token_stream()) == tyn {
+                    let mut path_nl = path.clone();
+                    StripLifetimes.visit_path_mut(&mut path_nl);
+                    let trait_matches = if trn.contains('<') {
+                        trn.parse::<TokenStream>().map(|t| norm(t) == norm(path_nl.to_token_stream())).unwrap_or(false)
+                    } else {
+                        path.segments.last().map(|s| s.ident.to_string()).as_deref() == Some(trn)
+                    };
+                    if trait_matches && norm(st.to_token_stream()) == tyn {
                         for ii in &im.items {
                             if let syn::ImplItem::Fn(m) = ii {
                                 if m.sig.ident == f && cfg_true(&m.attrs) {
@@ -729,6 +736,17 @@ impl<'c, 'a> VisitMut for Structural<'c, 'a> {
                     self.rewrite_macro_expr(&em.mac)
                 }
             }
+            Expr::Lit(el) => {
+                // R29: byte-string literal -> reference to an array literal (Verus knows the length of b".." but not its bytes)
+                if let syn::Lit::ByteStr(bs) = &el.lit {
+                    let bytes = bs.value();
+                    let lits: Vec<proc_macro2::Literal> = bytes.iter().map(|b| proc_macro2::Literal::u8_suffixed(*b)).collect();
+                    self.cx.logr("R29", bs.span(), format!("byte-string literal of {} bytes -> array literal", bytes.len()));
+                    Some(syn::parse_quote!(&[#(#lits),*]))
+                } else {
+                    None
+                }
+            }
             Expr::Unsafe(u) => {
                 self.cx.logr("R3", u.unsafe_token.span, "unsafe block opened; operations inside are rewritten to shims with their safety condition as precondition".into());
                 let b = &u.block;
@@ -754,6 +772,43 @@ impl<'c, 'a> VisitMut for Structural<'c, 'a> {
                 }
             }
             Expr::ForLoop(f) => self.rewrite_for(f),
+            Expr::Match(m) if m.arms.iter().any(|a| a.guard.is_some() && matches!(a.pat, syn::Pat::Or(_))) => {
+                // R28: `P1 | P2 if G => B` -> `P1 if G => B, P2 if G => B` (patterns without bindings; Verus rejects or-pattern + guard)
+                let mut m2 = m.clone();
+                let mut arms = vec![];
+                let mut ok = true;
+                for a in &m.arms {
+                    match (&a.pat, &a.guard) {
+                        (syn::Pat::Or(po), Some(_)) => {
+                            for case in &po.cases {
+                                if norm(case.to_token_stream()).contains('@') || has_binding(case) {
+                                    ok = false;
+                                }
+                                let mut a2 = a.clone();
+                                a2.pat = case.clone();
+                                if a2.comma.is_none() {
+                                    a2.comma = Some(Default::default());
+                                }
+                                arms.push(a2);
+                            }
+                        }
+                        _ => {
+                            let mut a2 = a.clone();
+                            if a2.comma.is_none() {
+                                a2.comma = Some(Default::default());
+                            }
+                            arms.push(a2);
+                        }
+                    }
+                }
+                if ok {
+                    m2.arms = arms;
+                    self.cx.logr("R28", m.match_token.span, "or-pattern with guard split into one guarded arm per alternative".into());
+                    Some(Expr::Match(m2))
+                } else {
+                    None
+                }
+            }
             Expr::Match(m) => {
                 // R26: `P if G => A, _ => D` (guarded arm followed only by a catch-all) -> `P => if G { A } else { D }, _ => D`
                 let n = m.arms.len();
@@ -823,6 +878,22 @@ impl<'c, 'a> Structural<'c, 'a> {
         }
         None
     }
+}
+
+fn has_binding(p: &syn::Pat) -> bool {
+    struct B(bool);
+    impl<'ast> Visit<'ast> for B {
+        fn visit_pat_ident(&mut self, i: &'ast syn::PatIdent) {
+            // identifiers in patterns are bindings unless they look like constants / unit variants (uppercase initial)
+            let s = i.ident.to_string();
+            if !s.chars().next().map(|c| c.is_uppercase()).unwrap_or(false) {
+                self.0 = true;
+            }
+        }
+    }
+    let mut b = B(false);
+    b.visit_pat(p);
+    b.0
 }
 
 // --- pass 3: expression rules to fixpoint
@@ -935,7 +1006,56 @@ impl<'m> VisitMut for Renamer<'m> {
 // ------------------------------------------------------------------------------------------ extract fn
 
 pub fn extract_fn(file: &syn::File, name: &str, opts: &Value, rules: &[Rule], plan: &Value) -> Result<Value, String> {
-    let mut f = find_fn(&file.items, name)?;
+    let lifted = &opts["lifted_from"];
+    let mut pre_numbered = false;
+    let mut f = if lifted.is_object() {
+        // R10: the body of closure #n of the parent function becomes a named function
+        let parent = lifted["fn"].as_str().ok_or("lifted_from.fn")?;
+        let n = lifted["closure"].as_u64().ok_or("lifted_from.closure")? as usize;
+        let mut pf = find_fn(&file.items, parent)?;
+        let mut block = pf.block.take().ok_or("parent of lifted closure has no body")?;
+        let stripped = strip_attr_tokens(block.to_token_stream());
+        block = syn::parse2(stripped).map_err(|e| format!("re-parse after attribute stripping: {}", e))?;
+        let mut dummy = Ctx { rules, opts, plan, log: vec![], errors: vec![], loops: 0, closures: 0, dasserts: 0 };
+        Numberer { cx: &mut dummy }.visit_block_mut(&mut block);
+        let mut fc = crate::closures::FindClosure { want: n, found: None };
+        fc.visit_block(&block);
+        let c = fc.found.ok_or_else(|| format!("lost anchor: closure #{} of `{}` not found", n, parent))?;
+        let params = lifted["params"].as_str().unwrap_or("");
+        let mut inputs: syn::punctuated::Punctuated<syn::FnArg, syn::token::Comma> = Default::default();
+        for part in params.split(';') {
+            for p in crate::closures::split_top_commas(part) {
+                let p = p.trim();
+                if p.is_empty() {
+                    continue;
+                }
+                // `name = expr : type` (how the captured value is passed) -> `name : type`
+                let decl = match p.split_once(':') {
+                    Some((n, t)) => format!("{}: {}", n.split('=').next().unwrap().trim(), t.trim()),
+                    None => p.to_string(),
+                };
+                let a: syn::FnArg = syn::parse_str(&decl).map_err(|e| format!("lift parameter `{}`: {}", decl, e))?;
+                inputs.push(a);
+            }
+        }
+        pf.sig.inputs = inputs;
+        pf.sig.ident = syn::Ident::new(name, pf.sig.ident.span());
+        pf.sig.output = match lifted["ret"].as_str() {
+            Some(r) if !r.trim().is_empty() => {
+                let t: syn::Type = syn::parse_str(r).map_err(|e| format!("lift return type: {}", e))?;
+                syn::ReturnType::Type(Default::default(), Box::new(t))
+            }
+            _ => syn::ReturnType::Default,
+        };
+        pf.block = Some(crate::closures::closure_body_block(&c));
+        pf.impl_generics = None;
+        pf.self_ty = None;
+        pf.trait_path = None;
+        pre_numbered = true;
+        pf
+    } else {
+        find_fn(&file.items, name)?
+    };
     let tmap = type_map_of(plan)?;
     // per-function substitutions (logged by the driver as rule S) are tried before the global rules
     let mut all_rules: Vec<Rule> = vec![];
@@ -1033,7 +1153,12 @@ pub fn extract_fn(file: &syn::File, name: &str, opts: &Value, rules: &[Rule], pl
         block = syn::parse2(stripped).map_err(|e| format!("re-parse after attribute stripping: {}", e))?;
         StripLifetimes.visit_block_mut(&mut block);
         // numbering
-        Numberer { cx: &mut cx }.visit_block_mut(&mut block);
+        if !pre_numbered {
+            Numberer { cx: &mut cx }.visit_block_mut(&mut block);
+        } else {
+            cx.loops = 1000;
+            cx.closures = 1000;
+        }
         // anchors
         if let Some(anchors) = opts["anchors"].as_array() {
             for a in anchors {
@@ -1091,6 +1216,60 @@ pub fn extract_fn(file: &syn::File, name: &str, opts: &Value, rules: &[Rule], pl
 pub fn extract_other(file: &syn::File, kind: &str, name: &str, _opts: &Value, _rules: &[Rule], plan: &Value) -> Result<Value, String> {
     let tmap = type_map_of(plan)?;
     let (items, name): (&[syn::Item], &str) = (&file.items, name);
+    if kind == "trait" {
+        for it in items {
+            if let syn::Item::Trait(tr) = it {
+                if tr.ident == name && cfg_true(&tr.attrs) {
+                    let mut consts = vec![];
+                    let mut fns = vec![];
+                    for ti in &tr.items {
+                        match ti {
+                            syn::TraitItem::Const(c) => {
+                                let mut c2 = c.clone();
+                                c2.attrs.clear();
+                                consts.push(one_line(c2.to_token_stream()));
+                            }
+                            syn::TraitItem::Fn(f) => fns.push(f.sig.ident.to_string()),
+                            _ => {}
+                        }
+                    }
+                    let mut g2 = tr.generics.clone();
+                    g2.where_clause = None;
+                    return Ok(json!({"ident": name, "generics": one_line(g2.to_token_stream()),
+                        "supertraits": one_line(tr.supertraits.to_token_stream()), "consts": consts, "fns": fns,
+                        "src_line": tr.ident.span().start().line, "rewrites": []}));
+                }
+            }
+        }
+        return Err(format!("lost anchor: trait `{}` not found", name));
+    }
+    if kind == "const" && name.starts_with('<') {
+        // <Type as Trait>::CONST
+        let rest = &name[1..];
+        let (inner, c) = rest.split_once(">::").ok_or("bad qualified const name")?;
+        let (ty, tr) = inner.split_once(" as ").ok_or("bad qualified const name")?;
+        let tyn = norm(ty.parse::<TokenStream>().map_err(|e| e.to_string())?);
+        for it in items {
+            if let syn::Item::Impl(im) = it {
+                if let Some((_, path, _)) = &im.trait_ {
+                    if path.segments.last().map(|s| s.ident.to_string()).as_deref() == Some(tr.trim()) && norm(im.self_ty.to_token_stream()) == tyn && cfg_true(&im.attrs) {
+                        for ii in &im.items {
+                            if let syn::ImplItem::Const(k) = ii {
+                                if k.ident == c && cfg_true(&k.attrs) {
+                                    let mut k2 = k.clone();
+                                    k2.attrs.clear();
+                                    let line = k.ident.span().start().line;
+                                    return Ok(json!({"impl_key": format!("impl {} for {}", one_line(path.to_token_stream()), one_line(im.self_ty.to_token_stream())),
+                                        "lines": lines_json(&print_lines(k2.to_token_stream(), 0, true)), "src_line": line, "rewrites": []}));
+                                }
+                            }
+                        }
+                    }
+                }
+            }
+        }
+        return Err(format!("lost anchor: const `{}` not found", name));
+    }
     // `Type::CONST` addresses an associated const of an inherent impl
     if kind == "const" {
         if let Some((ty, c)) = name.rsplit_once("::") {
